@@ -72,6 +72,10 @@ PROPS["C14"] = dict(units=["r1cs_sound"], assumptions=[A_ARK4, M_PRIME + " (no z
     explanation="the verbatim gadget code is verified with every witness value left arbitrary and every enforced constraint taken as a fact: any satisfying assignment makes isqrt / sign / abs / encode / decode / Elligator / equality / select outputs satisfy the specification's relations; known finding D6 is the region den = 0 of isqrt (decode of s = q-1)",
     not_decided=["AllocVar::new_variable (generic Borrow/closure plumbing) and the LazyElementVar RefCell layer of r1cs/element.rs, r1cs/lazy.rs, r1cs/ops.rs"])
 
+PROPS["C13"] = dict(units=["r1cs_compl"], assumptions=[A_ARK4, M_PRIME, M_ELL, M_DECAF, C09_CONTRACT, A_WF],
+    explanation="the verbatim gadget code is verified with honest hints (witness = value of the hint closure) and every enforced constraint / inverse as a proof obligation: synthesis returns Ok, all constraints hold, and outputs equal the native specification values (isqrt flag and root, sign, abs, encode, decode when native decoding succeeds, Elligator coordinates, equality, select)",
+    not_decided=["LazyElementVar forcing order / constraint counts (RefCell interior mutability and the hidden ark_relations constraint store: no contract can mention them)", "AllocVar::new_variable plumbing, scalar multiplication gadget (arkworks default method)", "add/sub/negate/double forwarding to AffineVar (A-ARK-4)"])
+
 NOT_APPLICABLE = {
     "C15": "circuit shape / pinned Groth16 keys: the subject is the hidden ark_relations constraint store and binary key files; no pre/postcondition on a /repo function can state matrix equality across runs or SNARK verification (DESIGN.md C15)",
 }
